@@ -427,6 +427,9 @@ func replay(hist []op) (fail, kind string, steps int) {
 		}
 	})
 	steps = e.Steps
+	if e.HarnessErr != "" {
+		replayHarnessErrs = append(replayHarnessErrs, fmt.Sprintf("history %v: %s", hist, e.HarnessErr))
+	}
 	if fail == "" && len(e.Panics) > 0 {
 		fail, kind = e.Panics[0], "panic"
 	}
@@ -435,6 +438,9 @@ func replay(hist []op) (fail, kind string, steps int) {
 	}
 	return
 }
+
+// replayHarnessErrs: replays whose body did not run to its end (reported as harness errors by bfs).
+var replayHarnessErrs []string
 
 func unionKeys(a, b map[string][]string) []string {
 	m := map[string]bool{}
@@ -493,6 +499,7 @@ func bfs(depth int, r *vx.Report, deadline time.Time) {
 		frontier = next
 	}
 done:
+	r.HarnessErrs = append(r.HarnessErrs, replayHarnessErrs...)
 	r.States += states
 	r.TracesValidated += trans
 	r.Extra["server_bfs"] = map[string]any{"canonical_states": states, "histories_replayed": trans, "depth": depth, "alphabet": len(ops)}
